@@ -76,10 +76,29 @@ def _sock_part(chk, n_sock, n_pipe):
     return results
 
 
+def _pipe_part(chk, n):
+    scen = importlib.import_module('scen_pipe')
+    cases = [scen.gen_case(chk.rng, chk.tier) for _ in range(n)]
+    results = chk.run_cases('scen_pipe', cases, sched=False)
+    chk.account(scen, results, 'E3-differential')
+    chk.collect_monitors(results, {'C18'}, keyfn)
+    nval, ntot = chk.validate('pipe', scen, results)
+    chk.add_obligation('correspondence', 'pipe: send/recv traces of the real pipe.Server/Client replayed through Pipe.step, '
+                       'and Connection framing vs Pipe.frame/readFrame (drv pipe)', nval == ntot, cases=ntot, agreed=nval)
+    dist = chk.cov['distribution'].setdefault('pipe_inproc', {})
+    for case, res in results:
+        dist['cases'] = dist.get('cases', 0) + 1
+        dist['messages'] = dist.get('messages', 0) + res['nmsg']
+        dist['frames_compared'] = dist.get('frames_compared', 0) + len(res['frames'])
+        dist['max_message_bytes'] = max([dist.get('max_message_bytes', 0)] + [e[2] for e in res['events']])
+    return results
+
+
 def run(chk):
     chk.audit(PROPS)
     quick = chk.tier == 'quick'
     _frame_part(chk, 500 if quick else 12000)
+    _pipe_part(chk, 60 if quick else 1500)
     _sock_part(chk, 36 if quick else 500, 10 if quick else 120)
     chk.cov['rule'] = (
         'frame (E3): cases = random (records: id class x encoder x payload class [empty, header look-alike, newline-heavy, '
@@ -106,7 +125,7 @@ ASSUMPTIONS = [
 
 def replay(chk, data):
     case = data['case']
-    scen_name = {'frame': 'scen_frame', 'sock': 'scen_sock', 'pipe': 'scen_sock'}.get(case.get('kind'), 'scen_frame')
+    scen_name = {'frame': 'scen_frame', 'sock': 'scen_sock', 'pipe': 'scen_sock', 'pipeip': 'scen_pipe'}.get(case.get('kind'), 'scen_frame')
     res = chk.run_cases(scen_name, [case], sched=False)
     _case, r = res[0]
     hits = [m for m in r['monitors'] if m['prop'] == chk.prop]
